@@ -3,10 +3,13 @@ package main
 import (
 	"encoding/json"
 	"fmt"
+	"strings"
 	"sync"
 	"sync/atomic"
 
+	"github.com/pingcap/failpoint"
 	"github.com/tikv/client-go/v2/internal/apicodec"
+	"github.com/tikv/client-go/v2/util"
 )
 
 // replayCase re-runs the part of the check a replay file points to and reports
@@ -23,6 +26,10 @@ func replayCase(key string, raw json.RawMessage, cmds []*cmdInfo) int {
 				viol("catalogue", p, p)
 			}
 		}
+	}
+	if isDiff {
+		util.EnableFailpoints()
+		failpoint.Enable("tikvclient/fastBackoffBySkipSleep", "return")
 	}
 	if isDiff && ds.Txn {
 		// txn sequences are cheap: re-run the whole depth they belong to
@@ -49,6 +56,9 @@ func replayCase(key string, raw json.RawMessage, cmds []*cmdInfo) int {
 		var a, b atomic.Int64
 		runShared(alpha, ds.Pair, seqA, seqB, seqV, runIsolated(alpha, seqA), runIsolated(alpha, seqB), runIsolated(alpha, seqV), ds, &a, &b, &sync.Map{})
 	} else if ref.Kind != "" {
+		if strings.Contains(key, ":*:") {
+			ref.Cmd = "" // type-level finding: needs the whole catalogue to be classified again
+		}
 		ids := []uint32{ref.ID}
 		var ccs []*codecCase
 		for _, cc := range makeCodecs(ids) {
